@@ -23,7 +23,7 @@ open OLP OLP.KV
 inductive Prog (K V C E : Type) (α : Type) where
   | ret  (a : α)
   | fail
-  | get  (k : K) (κ : Option V → Prog K V C E α)
+  | get  (k : K) (κ : GetRes V → Prog K V C E α)             -- `.errGas` = ErrExceedGasLimit
   | has  (k : K) (κ : Bool → Prog K V C E α)
   | set  (k : K) (v : V) (κ : Bool → Prog K V C E α)        -- `false` = ErrExceedGasLimit
   | del  (k : K) (κ : Prog K V C E α)
